@@ -143,9 +143,36 @@ func runC10(c *eng.Ctx) {
 	// ---- R10.3 inverted range / send before stop
 	c.Rule("R10.3", "K1")
 	if fn := c.Fn("server.(*partition).Subscribe"); fn != nil {
-		stop := eng.Call(0, "server.partition.getStopOffset")
+		stopCall := eng.Call(0, "server.partition.getStopOffset")
+		// the resolved stop offset, possibly replaced by "no stop" (-1) on some branch before it is used
+		stop := func(v ssa.Value) bool {
+			if stopCall(v) {
+				return true
+			}
+			ph, isPhi := v.(*ssa.Phi)
+			if !isPhi {
+				return false
+			}
+			has := false
+			for _, e := range ph.Edges {
+				switch {
+				case stopCall(e):
+					has = true
+				case eng.IntConst(-1)(e):
+				default:
+					return false
+				}
+			}
+			return has
+		}
 		start := eng.Call(0, "server.partition.getStartOffset")
 		waits := eng.CmpEdges(fn, stop, eng.IntConst(-1), eng.EQ)
+		// a request without a stop position has no range to invert: where the stop offset is only the implicit end of a
+		// read-only partition (StopPosition == STOP_ON_CANCEL) it may be dropped
+		waits = append(waits, eng.CmpEdges(fn, eng.LoadNamed("StopPosition", nil), func(v ssa.Value) bool {
+			k, isK := eng.Strip(v).(*ssa.Const)
+			return isK && eng.EnumName(k) == "StopPosition_STOP_ON_CANCEL"
+		}, eng.EQ)...)
 		// case analysis on the (immutable) direction flag: in the forward world every edge on which Reverse is true is
 		// infeasible, and vice versa; the range test demanded is the one of that direction
 		revT := eng.BoolEdges(fn, eng.LoadNamed("Reverse", nil), true)
@@ -390,6 +417,16 @@ func runC10(c *eng.Ctx) {
 
 	c.Rule("R08.6", "K2")
 	ruleReverseReaderSurvivesReplacement(c)
+	ruleDeletedSegmentReadsRecover(c)
+
+	// ---- from the repaired defects F59–F62
+	c.Rule("R10.9", "K5")
+	ruleParkedReaderKeepsRequestedOffset(c)
+	c.Floor(2)
+	c.Rule("R10.3", "K1")
+	ruleImplicitStopNotAnArgumentError(c)
+	c.Rule("R10.2", "K6")
+	ruleReverseOnEmptyPartitionEnds(c)
 
 }
 
